@@ -223,6 +223,23 @@ def check_property(pid, tier, seed):
         else:
             dyn.append(dict(id=a['id'], status='not-run', detail='replay binary unavailable'))
 
+    # contracts of functions outside both verifiers' reach, evaluated at run time on the real code over enumerated inputs
+    # (runtime assertion checking of the contract; never counted as proved, but a concrete failing input is a violation)
+    dyn_contracts = []
+    for c in pcfg.get('dynamic_contracts', []):
+        if not (replay_info and replay_info['ok']):
+            dyn_contracts.append(dict(id=c['id'], status='not-run'))
+            continue
+        args = c['cmd_thorough'] if tier == 'thorough' and c.get('cmd_thorough') else c['cmd']
+        d, err = witness._run([replay_info['bin']] + args)
+        if d is None:
+            dyn_contracts.append(dict(id=c['id'], status='not-run', detail=str(err)))
+        elif d.get('found'):
+            dyn_contracts.append(dict(id=c['id'], status='violated', input=d.get('input'), clause=d.get('clause'), detail=d.get('detail'),
+                                      obligation=c['obligation'], replay=c.get('replay'), text=c['text'], tried=d.get('tried')))
+        else:
+            dyn_contracts.append(dict(id=c['id'], status='held-on-enumerated-inputs', tried=d.get('tried'), text=c['text']))
+
     violations = []   # (obligation dict, unit result)
     undecided = []
     for r in results:
@@ -268,6 +285,23 @@ def check_property(pid, tier, seed):
             lines.append(f'VIOLATION property={pid} replay={rp} obligation={name} input={json.dumps(w.get("input"))}')
         else:
             lines.append(f'VIOLATION property={pid} replay={rp} obligation={name} no-failing-input-found')
+    for c in dyn_contracts:
+        if c['status'] != 'violated':
+            continue
+        name = f"{c['obligation']}[{c.get('clause')}]"
+        if name in top_failed:
+            continue
+        w = dict(found=True, input=c['input'], clause=c.get('clause'), detail=c.get('detail'),
+                 replay_cmd=[c['replay'], c['input']] if c.get('replay') else None)
+        rp = write_replay(pid, name, dict(kind='dynamic-contract', fn=c['id'], message=c['text'], site_text='', clause_text=''),
+                          dict(unit='dynamic:' + c['id'], verifier_output=[]), w)
+        k = match_known(known, pid, name, w)
+        if k:
+            lines.append(f'KNOWN-FINDING: property={pid} {k.get("what", name)} obligation={name} input={json.dumps(w.get("input"))}')
+            continue
+        n_viol += 1
+        exit_code = 1
+        lines.append(f'VIOLATION property={pid} replay={rp} obligation={name} input={json.dumps(c["input"])} (contract evaluated at run time on the real code)')
     if aux_failed and not top_failed:
         # the proof no longer goes through at an auxiliary obligation (loop invariant, lemma, assert): undecided
         # unless the dynamic contract evaluation exhibits a concrete failing input on the real code.
@@ -319,6 +353,7 @@ def check_property(pid, tier, seed):
             functions_under_contract=fns,
             extraction_rules=extract.RULES,
             dynamic_assumption_checks=dyn,
+            dynamic_contract_evaluation=dyn_contracts,
             bounded=[b for r in results for b in (r.get('bounded') or [])],
             not_covered=pcfg.get('not_covered', []),
             failed_obligations=sorted(by_name.keys()),
